@@ -173,6 +173,17 @@ Definition iterate_break {B} (O : sobs) (w : which) (body : st -> res (B * st)) 
       end
   end.
 
+(* nested use where the INNER loop is abandoned while its item number n is current, at every outer item:
+     for ... in d.compscans():
+         for ... in d.scans(): ...; break
+   The inner generator leaves its <key> = item in _selection (nothing after its yield runs); the outer generator then
+   restores the time mask and pops ITS key only. *)
+Definition inner_break (O : sobs) (inner : which) (n : nat) (s1 : st)
+  : res ((list (yielded unit) * option abandoned) * st) :=
+  match iterate_break O inner no_body n s1 with Ok (ys, ab, sf) => Ok ((ys, ab), sf) | Err e => Err e end.
+Definition iterate_nested_break (O : sobs) (outer inner : which) (n : nat) (s : st) :=
+  iterate O outer (inner_break O inner n) s.
+
 (* a loop body that itself calls select() (any number of calls); result of the body = the state it leaves *)
 Fixpoint run_calls (o : obs) (s : st) (calls : list kwargs) : res st :=
   match calls with
@@ -461,5 +472,20 @@ Definition wire_34 (x : sx) : sx :=
              end in
       let spec := L (map (of_spec_item (fun _ => L [])) (spec_iter o w (tk s0))) in
       L [of_Zs statuses; of_state s0; model; spec]
+  | _ => sx_err
+  end.
+
+(* (obs state_cd label_cd calls outer inner break_at) -> (statuses state_before model): `inner` nested inside `outer`, the
+   inner loop left while its item number break_at is current (at every outer item) *)
+Definition wire_35 (x : sx) : sx :=
+  match x with
+  | L [ob; stc; lbc; calls; I wo; I wi; I brk] =>
+      let o := to_obs ob in
+      let O := {| so := o; so_state := to_cd stc; so_label := to_cd lbc |} in
+      let '(statuses, s0) := run_prior o (init o) (map to_kwargs (to_list calls)) in
+      let model := of_run (fun b : list (yielded unit) * option abandoned =>
+                             L [L (map (of_yield (fun _ => L [])) (fst b)); of_abandoned (snd b)])
+                          (iterate_nested_break O (which_of wo) (which_of wi) (Z.to_nat brk) s0) in
+      L [of_Zs statuses; of_state s0; model]
   | _ => sx_err
   end.
